@@ -318,7 +318,57 @@ def _syscall_crash(out, dbdir, home, spec, selector, kind, P, exp_before, own, a
         shutil.rmtree(work, ignore_errors=True)
 
 
+_own_pool = {}
+
+
+def _own_identity(case, out):
+    """the account's own identity: whatever key pair the store generates for a new account - also one whose public key begins with
+    the key-type byte, with zero or with 0xff - is read back byte for byte, at once and after reopening"""
+    import yowsup.axolotl.store.sqlite.liteidentitykeystore as LIK
+    first = case["first_byte"]
+    if first not in _own_pool:
+        for _ in range(200000):
+            pair = KeyHelper.generateIdentityKeyPair()
+            pub = bytes(pair.getPublicKey().getPublicKey().getPublicKey())
+            if first is None or pub[0] == first:
+                _own_pool[first] = pair
+                break
+        else:
+            raise RuntimeError("no identity key with first byte %r found" % (first,))
+    pair = _own_pool[first]
+    pub = bytes(pair.getPublicKey().serialize())
+    priv = bytes(pair.getPrivateKey().serialize())
+    out.label("own_identity", "own_identity:first_key_byte=%s" % ("any" if first is None else "0x%02x" % first))
+    home = envkit.fresh_home("c13own")
+    real = LIK.KeyHelper.generateIdentityKeyPair
+    LIK.KeyHelper.generateIdentityKeyPair = staticmethod(lambda: pair)
+    try:
+        path = os.path.join(home, "axolotl.db")
+        store = LiteAxolotlStore(path)
+        for phase in ("new", "reopened"):
+            try:
+                got = store.getIdentityKeyPair()
+                gpub, gpriv = bytes(got.getPublicKey().serialize()), bytes(got.getPrivateKey().serialize())
+            except Exception as e:
+                out.fail("durability", "own_identity:unreadable:%s" % phase, {"error": repr(e)[:200]})
+                return out
+            if gpub != pub or gpriv != priv:
+                out.fail("durability", "own_identity:%s_key_differs:%s" % ("public" if gpub != pub else "private", phase),
+                         {"stored": pub[:6].hex(), "read": gpub[:6].hex(), "stored_len": len(pub), "read_len": len(gpub)})
+                return out
+            _close(store)
+            store = LiteAxolotlStore(path)
+        _close(store)
+        out.info = {"nt": first is not None}
+        return out
+    finally:
+        LIK.KeyHelper.generateIdentityKeyPair = real
+        envkit.drop_home(home)
+
+
 def run_case(case):
+    if case.get("sub") == "own_identity":
+        return _own_identity(case, Outcome())
     out = Outcome()
     P = pool()
     home = envkit.fresh_home("c13")
@@ -779,9 +829,12 @@ def plan(tier):
     return {
         "shards": 16,
         "enumerations": [("basic_scripts", _enum_basic), ("syscall_crash_sweep", _enum_syscall_crash), ("other_process_basic", _enum_other_process),
-                         ("orderly_termination_basic", _enum_orderly)],
+                         ("orderly_termination_basic", _enum_orderly),
+                         ("own_identity_key_patterns", lambda: iter([{"sub": "own_identity", "first_byte": b, "ops": []} for b in (0x05, 0x00, 0xff, None)]))],
         "strategies": [("scripts", script, 60 if quick else 1500), ("updates_by_another_process", other, 4 if quick else 60),
                        ("orderly_termination_in_mid_update", orderly, 6 if quick else 100)],
         "shrink": "ddmin",
         "budget_s": 150 if quick else 1500,
     }
+
+RULE += (' Also: session replacement through AxolotlManager.create_session (accepted and refused key bundles); orderly termination (SIGTERM handled with sys.exit) after the k-th statement of an update run in a child process; own identity key pairs whose public key begins with 0x05 / 0x00 / 0xff.')
